@@ -82,6 +82,10 @@ type RuleEntryReceiver interface {
 
 // AcceptSalience will accept salience value
 func (e *RuleEntry) AcceptSalience(salience *Salience) error {
+	if salience.Err != nil {
+
+		return salience.Err
+	}
 	e.Salience = salience.SalienceValue
 
 	return nil
